@@ -431,6 +431,21 @@ fn fam_lowlevel(o: &mut Out, quick: bool, rng: &mut Rng) {
                     o.pair("C19", "equal_cb", &plain, &r, "ModifiedSolution with an unchanged state is a no-op");
                 }
             }
+            // ControlFlag::XOut behaves like Continue as far as the integration is concerned (dense on and off)
+            for nodense in [false, true] {
+                if *m == "BDF" && nodense { continue; }
+                let mut c = base(m, Problem::new("logistic", 0.0), *x0, *xend);
+                c.api = "low".into();
+                c.low_nodense = nodense;
+                if *m == "RK4" { c.first_step = Some((xend - x0) / 9.0); }
+                c.tags = vec![if nodense { "plain_nodense".into() } else { "plain_dense".into() }];
+                let pl = o.run(c.clone());
+                let mut cx = c.clone();
+                cx.script = (0..6).map(|k| Script { k: 2 * k, action: "xout".into() }).collect();
+                cx.tags = vec![if nodense { "xout_nodense".into() } else { "xout_dense".into() }];
+                let xr = o.run(cx);
+                o.pair("C19", "equal_cb", &pl, &xr, "returning XOut instead of Continue does not change the integration");
+            }
             // the landing step is attempted first and rejected: first_step >= interval at a tight tolerance
             if *m != "RK4" {
                 for fsf in [1.0, 10.0] {
